@@ -161,7 +161,8 @@ fn configs(prop: &str, thorough: bool) -> Vec<(Cfg, Option<usize>)> {
                 c.freeze_callers = if thorough { vec![A1, X] } else { vec![] };
                 // grant calls also by the subkey naming itself and by a stranger, with every expiry kind
                 c.grant_callers = vec![A1, S1, X];
-                c.targets = vec![tg(S1, &[0, 1], Some(2)), tg(A2, &[0], Some(1))];
+                // (quick: the admin-with-an-allowance role is played by S1 in the one-subkey configuration)
+                c.targets = if thorough { vec![tg(S1, &[0, 1], Some(2)), tg(A2, &[0], Some(1))] } else { vec![tg(S1, &[0, 1], Some(2))] };
                 c.inc_amounts = vec![1, 2];
                 c.dec_amounts = vec![0, 1];
                 c.inc_exps = vec![ExpA::Unset, ExpA::H(H0 + 1)];
@@ -186,7 +187,8 @@ fn configs(prop: &str, thorough: bool) -> Vec<(Cfg, Option<usize>)> {
                 c.actors = vec!["A1", "A2", "S1", "S2", "X", "proxy", "pre:A1"];
                 c.init_admins = vec![A1];
                 c.admin_callers = vec![A1];
-                c.admin_lists = vec![vec![A1], vec![A1, 5]];
+                // the subkey itself is promoted to admin and demoted again, with grant calls on it in between
+                c.admin_lists = vec![vec![A1], vec![A1, 5], vec![A1, S1]];
                 c.grant_callers = vec![A1, S1];
                 c.targets = vec![tg(S1, &[0, 1], Some(2))];
                 c.inc_amounts = vec![1, 2];
